@@ -954,6 +954,16 @@ theorem C04_gen_write_order :
         callsBeforeWrite.any fun r => r.1 == e.name && fns[f]? == some r.2.1 && r.2.2.2.all fun c => !(readerIdents e).contains c) = true
     ∧ fnIdents.length = fns.length := by decide +kernel
 
+/-- Memoisation decorators are process-global mutable state: a `functools.lru_cache` / `functools.cache` keeps what the function returned
+for every later caller in the process — later episodes, other environments. No memoised function of the package returns a value that is
+not syntactically immutable (tuple / frozenset / str / number / address objects …): a cached list / dict / set that a caller extends is
+extended for everybody (`memoDischarged`: reviewed exceptions, none). The caches that exist also show up as run-time written inventory
+entries (`… .<memo cache>`, written and read by their callers) and so in `C04_gen_classification`. -/
+def memoDischarged : List String := []
+
+theorem C04_gen_no_mutable_memo :
+    (memoFunctions.all fun m => m.2.2.1 || memoDischarged.contains m.1) = true := by decide +kernel
+
 /-- no `global` statement anywhere, and no module logger object is re-bound or mutated by a function -/
 theorem C04_gen_no_global_statements : globalStatements = [] ∧ moduleLoggersWritten = [] := by decide
 
